@@ -264,6 +264,8 @@ def _check_count(sc, ri, v: Verdict):
             n_und += 1
             notes.append("; ".join(f"{k}: emitted {et} vs declared {dt}" for k, et, dt in (diff2 if st2 != "equal" else diff))[:120])
     v.aligned = n_eq + n_coarse
+    if n_unaligned and not any(f[0] == "R-C11-count" for f in v.findings):
+        _strictness(sc, ri, v, dpaths)
     if any(f[0] == "R-C11-count" for f in v.findings):
         v.count_v = "refuted"
         v.count_detail = "; ".join(f[1] for f in v.findings if f[0] == "R-C11-count")[:160]
@@ -275,6 +277,89 @@ def _check_count(sc, ri, v: Verdict):
         v.count_detail = f"{n_eq + n_coarse} aligned equal, {n_unaligned} path(s) without a declared path on the same conditions, {n_und} undetermined"
         if notes:
             v.count_detail += ": " + notes[0]
+
+
+import re as _re
+
+_GE0 = _re.compile(r"^(.*?)([+-]\d+)?>=0$")
+
+
+def _cmp_parts(text):
+    """conditions are normalised by E3 to `<integer expression> >= 0`: -> (expression without its constant term, constant)"""
+    m = _GE0.match(text.replace(" ", ""))
+    if not m or not m.group(1):
+        return None
+    return m.group(1), int(m.group(2) or 0)
+
+
+def _strictness(sc, ri, v, dpaths):
+    """Sibling contradiction: the rule body and its resource function branch on the same comparison, one with a strict and the
+    other with a non-strict operator (`value > m` / `value >= m`; E3 normalises both to `<expr> >= 0`, so the two conditions
+    differ in the constant term only).  If using one threshold on both sides makes every path align with equal
+    counts, and the two branches declare different resources, then at the boundary input (lhs == rhs) the resource function
+    answers for the other branch than the rule body takes."""
+    ekeys = {k for p in ri.paths for k in p.conds}
+    dkeys = {k for p in ri.declared_paths for k in p.conds}
+    pairs = []
+    for ek in sorted(ekeys - dkeys):
+        pe = _cmp_parts(ek)
+        if not pe:
+            continue
+        for dk in sorted(dkeys - ekeys):
+            pd = _cmp_parts(dk)
+            if pd and pd[0] == pe[0] and pd[1] != pe[1]:
+                pairs.append((ek, dk))
+    if len(pairs) != 1:
+        return
+    ek, dk = pairs[0]
+    # applicability conditions mentioning the compared quantity may exclude the boundary: leave undecided
+    names = set(_re.findall(r"[A-Za-z_][A-Za-z_0-9]*", ek)) - {"pow", "len", "min", "max"}
+    for d in ri.func.node.decorator_list:
+        if isinstance(d, ast.Call) and "register_condition" in norm(d.func):
+            mentioned = {x.id for x in ast.walk(d) if isinstance(x, ast.Name)} | \
+                {a.arg for x in ast.walk(d) if isinstance(x, ast.Lambda) for a in x.args.args + x.args.kwonlyargs}
+            if names & mentioned:
+                return
+    ce, cd = _cmp_parts(ek)[1], _cmp_parts(dk)[1]
+    ren = {}
+    for key, dp in dpaths.items():
+        ren[tuple(sorted((ek if c == dk else c, b) for c, b in key))] = dp
+
+    def cmp2(ms, decl):
+        st, _ = _compare(ms, decl)
+        if st != "equal":
+            st2, _ = _compare(_coarsen(sc, ms), _coarsen_decl(sc, decl))
+            return st2
+        return st
+    # with one threshold on both sides nothing may disagree (otherwise the difference is not just the boundary)
+    for p in ri.paths:
+        d = ren.get(tuple(sorted(p.conds.items())))
+        if d is None or cmp2(p.multiset(), dict(d.declared.items)) == "mismatch":
+            return
+    # inputs between the two thresholds: the rule is on one side of its guard, the resource function on the other side of its own
+    e_side = ce > cd
+    hit = False
+    for p in ri.paths:
+        if p.conds.get(ek) is not e_side:
+            continue
+        want = tuple(sorted((dk, not e_side) if c == ek else (c, b) for c, b in p.conds.items()))
+        d = dpaths.get(want)
+        if d is None:
+            return
+        if cmp2(p.multiset(), dict(d.declared.items)) != "mismatch":
+            return
+        hit = True
+    if not hit:
+        return
+    node = None
+    for dp in ri.declared_paths:
+        node = node or next(iter(dp.declared.nodes.values()), None)
+    lo, hi = sorted((-ce, -cd))
+    stmt = f"branch boundary: rule `{ek}` vs resources `{dk}`"
+    v.findings.append(("R-C11-count", stmt, f"{ri.qualname}: the rule body branches on `{ek}` while its resource function branches on `{dk}` (the thresholds differ by "
+                       f"{abs(ce - cd)}); with either threshold on both sides every path declares exactly what is emitted, and the two branches declare different "
+                       f"gate counts, so for inputs with {lo} <= {_cmp_parts(ek)[0]} < {hi} the resource function describes the branch the rule does not take",
+                       node or ri.deco))
 
 
 def _work_decl(sc, ri):
